@@ -215,9 +215,12 @@ func (p *Program) guardedByNonNil(info *types.Info, n ast.Node, stop ast.Node, w
 			return true
 		}
 		for _, c := range conjuncts(ifs.Cond) {
-			if x, notNil, ok := nilCompare(info, c); ok && notNil && sameExpr(info, x, want) {
-				found = true
-				return false
+			if x, notNil, ok := nilCompare(info, c); ok && notNil {
+				// temporaries are looked through on both sides (prop := n.Props[i]; if prop.Value != nil)
+				if sameExpr(info, x, want) || sameExpr(info, p.resolveDeep(x, 0, p.DefExpr), p.resolveDeep(want, 0, p.DefExpr)) {
+					found = true
+					return false
+				}
 			}
 		}
 		return true
